@@ -2,6 +2,8 @@ use typed_builder::TypedBuilder;
 
 /// Basic Position Parameters.
 #[derive(Debug, Clone, Copy, TypedBuilder)]
+// verif hook: equality is needed only by the relational verification harnesses (feature `verif`).
+#[cfg_attr(feature = "verif", derive(PartialEq, Eq))]
 pub struct PositionParams<T> {
     min_position_size_usd: T,
     min_collateral_value: T,
@@ -74,6 +76,8 @@ impl<T> PositionParams<T> {
 
 /// Position Impact Distribution Parameters.
 #[derive(Debug, Clone, Copy, TypedBuilder)]
+// verif hook: equality is needed only by the relational verification harnesses (feature `verif`).
+#[cfg_attr(feature = "verif", derive(PartialEq, Eq))]
 pub struct PositionImpactDistributionParams<T> {
     distribute_factor: T,
     min_position_impact_pool_amount: T,
